@@ -13,7 +13,7 @@ META = {
              'ast positions. Oracle after node.put_src(text, ..., "offset"): root.src == the splice and dump(include_attributes) == dump(ast.parse(new)). '
              'A cell is (target node class, edit kind, single/multi-line, multibyte-before-spot). Coordinates are sometimes passed in the documented alias spellings (negative / \'end\' / clipped).'),
     'budget': {'quick': 40, 'thorough': 600},
-    'floors': {'quick': {'offset_edits_checked': 20000, 'programs': 150}, 'thorough': {'offset_edits_checked': 400000, 'programs': 3000}},
+    'floors': {'quick': {'offset_edits_checked': 20000, 'programs': 150}, 'thorough': {'offset_edits_checked': 250000, 'programs': 600}},
     'exhaustive': {'quick': False, 'thorough': False},
     'assumptions': ['in-scope = the edit is pure trivia according to CPython (structure unchanged)', 'gaps inside f-string middles are excluded'],
     'technique': 'runtime monitoring: enumeration of token gaps with a full-reparse reference after every offset-mode edit',
